@@ -3,6 +3,7 @@ CONSTANTS
   Threads <- T2
   Keys <- K3
   DirectKeys = {}
+  MaxRepeats = 2
   DepsOpts <- CyclicGraphs
   LoadsOpts <- W2_1
   SharedOpts = {TRUE, FALSE}
